@@ -58,3 +58,42 @@ __CPROVER_assigns(i, __CPROVER_object_whole(Mt))
 __CPROVER_loop_invariant(i <= rabin_s2)
 __CPROVER_decreases(rabin_s2 - i)
 //@ end
+
+//@ function TMCG_PublicKey__check
+//@ contract
+__CPROVER_requires(__CPROVER_is_fresh(self, sizeof(*self)))
+__CPROVER_requires(UF(bits)(V(self->m)) < ((unsigned long)1 << 32))
+__CPROVER_requires(ghost_vfy_calls == 0 && strtoul_calls == 0)
+__CPROVER_assigns(PARSE_ASSIGNS, CHECK_MONITOR, ev_n, g_g_out, g_g_osize, g_g_in, g_g_isize)
+/* C12: memory safe, no division by a zero modulus, for every key (obligations in the body).
+ * C10 (key validation): a key is accepted only if y has Jacobi symbol 1, m is odd and not prime, and its
+ * self-signature verified (exactly one verification, verdict true) ... */
+__CPROVER_ensures(__CPROVER_return_value ==> (UF(jacobi)(V(self->y), V(self->m)) == 1 && UF(tstbit)(V(self->m), 0) && !UF(prime)(V(self->m))))
+__CPROVER_ensures(__CPROVER_return_value ==> (ghost_vfy_calls == 1 && ghost_vfy_ret))
+/* ... and, for a NIZK key, only if each of the three proof stages announces at least the required number of rounds */
+__CPROVER_ensures((__CPROVER_return_value && ghost_find_ret != (size_t)-1) ==>
+   (strtoul_calls == 3 && strtoul_ret[0] >= TMCG_KEY_NIZK_STAGE1 && strtoul_ret[1] >= TMCG_KEY_NIZK_STAGE2 && strtoul_ret[2] >= TMCG_KEY_NIZK_STAGE3))
+/* a non-NIZK key is accepted without reading a proof */
+__CPROVER_ensures((__CPROVER_return_value && ghost_find_ret == (size_t)-1) ==> strtoul_calls == 0)
+//@ loop 1
+__CPROVER_assigns(i, V(foo), V(bar), input.acc, input.nput, input.okv, input.okev, ev_n, g_g_out, g_g_osize, g_g_in, g_g_isize, __CPROVER_object_whole(mn))
+__CPROVER_loop_invariant(i <= stage1_size)
+__CPROVER_decreases(stage1_size - i)
+//@ loop 2
+__CPROVER_assigns(V(foo), V(bar), input.acc, input.nput, input.okv, input.okev, ev_n, g_g_out, g_g_osize, g_g_in, g_g_isize, __CPROVER_object_whole(mn))
+__CPROVER_loop_invariant(1)
+//@ loop 3
+__CPROVER_assigns(i, V(foo), V(bar), input.acc, input.nput, input.okv, input.okev, ev_n, g_g_out, g_g_osize, g_g_in, g_g_isize, __CPROVER_object_whole(mn))
+__CPROVER_loop_invariant(i <= stage2_size)
+__CPROVER_decreases(stage2_size - i)
+//@ loop 4
+__CPROVER_assigns(V(foo), V(bar), input.acc, input.nput, input.okv, input.okev, ev_n, g_g_out, g_g_osize, g_g_in, g_g_isize, __CPROVER_object_whole(mn))
+__CPROVER_loop_invariant(1)
+//@ loop 5
+__CPROVER_assigns(i, V(foo), V(bar), input.acc, input.nput, input.okv, input.okev, ev_n, g_g_out, g_g_osize, g_g_in, g_g_isize, __CPROVER_object_whole(mn))
+__CPROVER_loop_invariant(i <= stage3_size)
+__CPROVER_decreases(stage3_size - i)
+//@ loop 6
+__CPROVER_assigns(V(foo), V(bar), input.acc, input.nput, input.okv, input.okev, ev_n, g_g_out, g_g_osize, g_g_in, g_g_isize, __CPROVER_object_whole(mn))
+__CPROVER_loop_invariant(1)
+//@ end
